@@ -189,6 +189,8 @@ class G:
         k = self.r.choice(["DSet", "DSet", "DSet", "DDel", "DPop", "DPopitem", "DClear", "DUpdate", "DUpdate",
                            "DSetdefault", "DReset"])
         if k == "DSet":
+            if self.r.random() < 0.15:
+                return (k, self.dkey(d), self.r.choice([None, None, 0, "", [], {}, False]))
             return (k, self.dkey(d), self.value(depth))
         if k in ("DDel", "DPop"):
             return (k, self.dkey(d))
@@ -204,6 +206,10 @@ class G:
                     v = 5
             return (k, v)
         if k == "DSetdefault":
+            # often on a key that is present with a falsy value (None, 0, "", [], {}): "present" must not be confused with "truthy"
+            falsy = [kk for kk, vv in d.items() if not vv and isinstance(kk, str)]
+            if falsy and self.r.random() < 0.5:
+                return (k, self.r.choice(falsy), self.value(depth))
             return (k, self.dkey(d), self.value(depth))
         if k == "DReset":
             return (k, self.vdict(depth, 4) if self.r.random() < 0.85 else self.r.choice([[1], 5, "ab"]))
